@@ -52,6 +52,10 @@ CLAIMED = {
  'C04': dict(tech="TLC: sponge/duplex design checked exhaustively over Keccak-f[25] (and f[50]) for every rate and every L <= 2r+2, pad10*1 for all rates <= 40; TLC trace validation of the real Keccak object, SHA3, SHAKE and duplex sequences against the bit-level FIPS 202 specification (round constants and rho offsets derived in TLA+)",
              text="Exhaustive: the whole configuration space of Keccak[25] (quick) and Keccak[50] (thorough): every rate 0<r<b, every bit length 0..2r+2, both bit-order conventions.  Boundary grid for b in {50..1600}: rates incl. non-multiples of 8 and r<8, L mod r in {0,1,r-2,r-1}, L mod 8, data longer than the bit length, output lengths 1, r-1, r, r+1, 2r+3; module singletons; SHA3-224..512 and SHAKE128/256 around the rate boundary; duplex call sequences on one object.  Message content is seeded.",
              ref="DESIGN.md section 7 C04"),
+
+ 'C06': dict(tech="TLC: RC4 stream object model-checked over N=8 (every split, permutation invariant, one continuous stream) + TLC trace validation of Salsa20/ChaCha/RC4 objects against TLA+ transcriptions of the Salsa20, ChaCha and RC4 specifications (validated against spec examples, OpenSSL-frozen vectors)",
+             text="Salsa20/ChaCha: both key sizes, nonce classes, every even round count 2..20 (thorough) / 8, 20 and a rotating third (quick), |M| in {0,1,63,64,65,127,128,129,191,200}, prefixes, dec, start blocks 2^32-2..2^32+1 through hook H1 for the counter carry, the Salsa20 core; RC4: key lengths {1,2,5,16,255,256}, every composition of 6 bytes into pieces of 0..3 bytes and seeded piece sequences on one object incl. empty pieces, rejected key lengths.  Keys/nonces/messages are seeded.",
+             ref="DESIGN.md section 7 C06"),
 }
 PENDING = "check not built yet in this tree (specification modules are being written; see DESIGN.md section 12 build order) - not claimed until its quick command runs clean"
 def main():
@@ -70,7 +74,7 @@ def main():
     m = dict(version=1, setup_cmd="make -C /verif setup",
              hooks=dict(guard="BDCHT_CRYSP_VERIF", enable="export BDCHT_CRYSP_VERIF=1 (pure Python: bin/check sets it and imports /repo directly)",
                         baseline_off_cmd="cd /repo && env -u BDCHT_CRYSP_VERIF /venv/bin/python -m pytest -ra -q -p no:cacheprovider --timeout=900 --continue-on-collection-errors",
-                        source_commits=[], add_only=True),
+                        source_commits=['241042bf418dddf9cf626b7d1b6aa7466ea7291c'], add_only=True),
              engines=[dict(name="tlc", path="/verif/bin/check", serves_properties=sorted(CLAIMED),
                            kind_free_text="TLA+ specification (spec/), TLC model checking of bounded instances, TLC trace validation of recorded executions of the real library (harness/)")],
              checks=checks, not_applicable=na,
